@@ -235,7 +235,7 @@ var c06Hostile = func() []string {
 	return h
 }()
 
-var c06StoreFamilies = []string{"empty", gen.FTiny, gen.FMixed, gen.FBinary, "extreme", gen.FWide, gen.FNum, gen.FRel, "text"}
+var c06StoreFamilies = []string{"empty", gen.FTiny, gen.FMixed, gen.FBinary, "extreme", gen.FWide, gen.FNum, gen.FRel, "text", gen.FJSON}
 
 func c06Store(r *rt.Rand, fam string) []refstore.Pair {
 	switch fam {
